@@ -72,6 +72,18 @@ Definition mode_all (d : decoders) (c : cli_cfg) (content : text -> bytes) (name
   if c_hex c then OutHex (map content sel)
   else OutAll (got_list (map (fun n => match d_full d (content n) with Got (_, j) => Got j | Exc => Exc | Skip => Skip end) sel)).
 
+(* ---- directory entries that cannot be opened ----
+   openPELFile answers None for them (a link whose target is gone, a file purged between the listing and the read, a
+   permission error): one diagnostic on stderr, then the next file.  [oc n = None] says that n cannot be opened. *)
+Definition readable (oc : text -> option bytes) (n : text) : bool := match oc n with Some _ => true | None => false end.
+Definition content_of (oc : text -> option bytes) (n : text) : bytes := match oc n with Some b => b | None => [] end.
+Definition mode_count_o (d : decoders) (c : cli_cfg) (oc : text -> option bytes) (names : list text) : stdout_t :=
+  mode_count d c (content_of oc) (filter (readable oc) names).
+Definition mode_list_o (d : decoders) (c : cli_cfg) (oc : text -> option bytes) (names : list text) : stdout_t :=
+  mode_list d c (content_of oc) (filter (readable oc) names).
+Definition mode_all_o (d : decoders) (c : cli_cfg) (oc : text -> option bytes) (names : list text) : stdout_t :=
+  mode_all d c (content_of oc) (filter (readable oc) names).
+
 (* stderr: one diagnostic per file whose decoder raised; exit status of every directory mode *)
 Definition stderr_names (dec : bytes -> bool) (l : list text) (content : text -> bytes) : list text :=
   filter (fun n => dec (content n)) l.
